@@ -289,12 +289,59 @@ def witness_tooled(chk):
     chk.count(("tooled-decorator",))
     if same is True:
         return
-    if chk.is_known("F25"):
+    if same is False and chk.is_known("F25"):
         chk.known_finding("F25", "the reference of a function decorated with @tooled resolves to the undecorated "
                           "original (%r), not to the tooled function object" % (same,))
     else:
         chk.violation("oracle", "refstring of a @tooled function does not resolve to it: %r" % (same,),
                       {"history": ["@tooled def tf", "select(refstring(tf))"]})
+    pyprog.drop_module(mod)
+
+
+def witness_inplace(chk):
+    """functions tooled in place (they keep their identity): their references resolve to them before, during and
+    after probes, by name and by reference"""
+    import ptera
+    import pyprog
+    src = ("from ptera import tooled\n\n@tooled.inplace\ndef kept(x):\n    v = x + 1\n    return v\n\n"
+           "class Box:\n    class Inner:\n        @tooled.inplace\n        def meth(self, x):\n            w = x * 2\n            return w\n\n"
+           "def later(x):\n    u = x - 1\n    return u\n\ntooled.inplace(later)\n")
+    mod = pyprog.make_module(src, "verif_c14_inplace")
+    targets = [("kept", mod.kept, "v"), ("Box.Inner.meth", mod.Box.Inner.meth, "w"), ("later", mod.later, "u")]
+    hist = []
+
+    def resolve_all(when):
+        for name, fn, var in targets:
+            try:
+                got = ptera.selector.select(ptera.refstring(fn) + " > " + var).element.name
+                ok = got is fn
+                what = "another object" if not ok else ""
+            except Exception as e:
+                ok, what = False, "%s: %s" % (type(e).__name__, str(e)[:100])
+            chk.count(("inplace", name, when))
+            if not ok:
+                chk.violation("oracle", "the reference of %s (tooled in place) does not resolve to it %s: %s" % (name, when, what),
+                              {"source": src, "history": hist + ["resolve " + name]})
+    try:
+        resolve_all("before any probe")
+        for name, fn, var in targets:
+            hist.append("probe %s by name" % name)
+            with ptera.probing(fn, "x") if False else ptera.probing("%s > %s" % (name, var), env=mod.__dict__).values() as evs:
+                resolve_all("while %s is probed" % name)
+                (fn(3) if name != "Box.Inner.meth" else mod.Box.Inner().meth(3))
+            if len(evs) != 1:
+                chk.violation("oracle", "probing %s > %s delivered %d events for one call" % (name, var, len(evs)),
+                              {"source": src, "history": hist})
+            resolve_all("after the probe on %s" % name)
+            hist.append("probe %s by reference" % name)
+            with ptera.probing(ptera.refstring(fn) + " > " + var).values() as evs:
+                (fn(4) if name != "Box.Inner.meth" else mod.Box.Inner().meth(4))
+            if len(evs) != 1:
+                chk.violation("oracle", "probing %s by reference delivered %d events for one call" % (name, len(evs)),
+                              {"source": src, "history": hist})
+    except Exception as e:
+        chk.violation("oracle", "functions tooled in place: %s: %s" % (type(e).__name__, str(e)[:160]),
+                      {"source": src, "history": hist})
     pyprog.drop_module(mod)
 
 
@@ -346,6 +393,7 @@ def run(chk):
             uni.drop()
         code_registry.always_use_cache = False
         witness_tooled(chk)
+        witness_inplace(chk)
     finally:
         sys.path.remove(tmp)
         shutil.rmtree(tmp, ignore_errors=True)
